@@ -2,6 +2,6 @@ INIT Init
 NEXT Next
 CONSTANTS
   BS = 4
-  FLO = 0
+  FNEG = 0
   FHI = 3
 CHECK_DEADLOCK FALSE
